@@ -44,7 +44,14 @@ LOCAL OnOpPlain(e, m) ==
                        LET r1 == Resolve(u, e.path, e.q, Get0(b0, e.path))
                            r2 == Resolve(u, e.path, e.q, Get0(b1, e.path)) IN
                        (r1.ok /\ r1.v < Get0(b0, e.path)) \/ (r2.ok /\ r2.v < Get0(b1, e.path))
-             m2 == VIf(m1, e.again # e.after, "C11",
+             \* a patch query is relative to the selected version: when the first application moves the
+             \* project into a newer major.minor (through the requirements it brings in), the same
+             \* query denotes a newer version the second time and the repetition is a new operation
+             moved == e.kind = "get" /\ e.q.kind = "patch" /\
+                      LET r1 == Resolve(u, e.path, e.q, Get0(b0, e.path))
+                          r2 == Resolve(u, e.path, e.q, Get0(b1, e.path)) IN
+                      r1.ok /\ r2.ok /\ r2.v > r1.v /\ r2.v > Get0(b1, e.path)
+             m2 == VIf(m1, e.again # e.after /\ ~moved, "C11",
                        IF isDown THEN "repeating a downgrade changed the requirements again"
                        ELSE "repeating the operation changed the requirements again", e.kind)
              m3 == CASE e.kind = "tidy" -> VIf(m2, b1 # b0, "C11", "tidy changed the build list", e.kind)
